@@ -12,6 +12,10 @@ from . import common, unparse, vmrun
 VERIF = common.VERIF
 OUT = os.environ.get('VERIF_OUT', VERIF)      # evidence/replays root (redirected when trying mutants)
 UNLIMITED_REAL = 10 ** 9
+# deviations implemented by the evaluator layer of the specification (SQBuiltins.tla / SQVM.tla)
+VM_DEVIATIONS = ('ClosureChargesCreator', 'ShortOpKeyError', 'SetWithOpLookupError', 'ShortMulNative', 'RandDecimalBounds',
+                 'ConcatUnchecked', 'ShortAddUnchecked', 'ShortMulRepeats', 'StrToListUnchecked', 'IntViaPyInt', 'SetItemYieldsValue')
+DEVIATION_WITH = {'ShortMulRepeats': ['ShortMulNative']}
 
 
 def load_known_findings():
@@ -119,11 +123,15 @@ class Report:
         with open(os.path.join(OUT, 'evidence', self.prop + '.json'), 'w') as f:
             json.dump(ev, f, indent=1, default=str)
         mine = {f['deviation'] for f in load_known_findings() if f.get('property') == self.prop}
+        lines = set()
         for dev, what in sorted(set(self.known)):
             # findings listed for another property merely explain a conformance difference met on the way;
             # they are reported by that property's own check (and recorded in this evidence file)
-            if dev in mine or any(d in mine for d in dev.split('+')):
-                print('KNOWN-FINDING: property=%s %s [%s]' % (self.prop, what, dev))
+            for d in dev.split('+'):
+                if d in mine:
+                    lines.add((d, finding_text(d)))
+        for d, what in sorted(lines):
+            print('KNOWN-FINDING: property=%s %s [%s]' % (self.prop, what, d))
         if self.machinery:
             for mch in self.machinery[:5]:
                 print('MACHINERY-FAILURE: %s' % mch, file=sys.stderr)
@@ -283,23 +291,27 @@ def judge_cases(rep, cases, deviations_open, what='scenario', attribute=None):
         else:
             rejected.append(c)
     if rejected:
+        from concurrent.futures import ThreadPoolExecutor
         explained = {}
-        for dev in deviations_open:
-            todo = [c for c in rejected if c['tid'] not in explained]
-            if not todo:
-                break
-            v2, res2 = vmrun.validate(todo, deviations=[dev])
-            rep.add_tlc(res2, 'TraceVM +%s on %d rejected traces' % (dev, len(todo)))
-            for c in todo:
-                if v2.get(c['tid'], {}).get('v') == 'accepted':
-                    explained[c['tid']] = dev
-        still = [c for c in rejected if c['tid'] not in explained]
-        if still and len(deviations_open) > 1:
-            v3, res3 = vmrun.validate(still, deviations=list(deviations_open))
-            rep.add_tlc(res3, 'TraceVM +all open deviations on %d rejected traces' % len(still))
-            for c in still:
-                if v3.get(c['tid'], {}).get('v') == 'accepted':
-                    explained[c['tid']] = '+'.join(deviations_open)
+        vm_devs = [d for d in deviations_open if d in VM_DEVIATIONS]
+        # 1. is the trace what the specification with ALL open deviations does?  (else: violation)
+        v3, res3 = vmrun.validate(rejected, deviations=vm_devs)
+        rep.add_tlc(res3, 'TraceVM +all open deviations on %d rejected traces' % len(rejected))
+        ok_union = [c for c in rejected if v3.get(c['tid'], {}).get('v') in ('accepted', 'leftdomain')]
+        # 2. attribute: the first single deviation (with the deviations it presupposes) that explains it
+        def single(dev):
+            group = [dev] + [w for w in DEVIATION_WITH.get(dev, []) if w in vm_devs]
+            return dev, vmrun.validate(ok_union, deviations=group, procs=4)
+        if ok_union:
+            with ThreadPoolExecutor(max_workers=4) as ex:
+                results = list(ex.map(single, vm_devs))
+            for dev, (v2, res2) in results:
+                rep.add_tlc(res2, 'TraceVM +%s on %d traces' % (dev, len(ok_union)))
+                for c in ok_union:
+                    if c['tid'] not in explained and v2.get(c['tid'], {}).get('v') in ('accepted', 'leftdomain'):
+                        explained[c['tid']] = dev
+            for c in ok_union:
+                explained.setdefault(c['tid'], '+'.join(vm_devs))
         for c in rejected:
             v = verdicts[c['tid']]
             if c['tid'] in explained:
